@@ -49,6 +49,7 @@ fn c14_flag_collision_duplicate() -> (bool, String) {
 }
 
 /// timestamps >= 2^63 are outside the contract (`requires ts_ok`): the `as i64` cast wraps and the subtraction overflows
+#[allow(dead_code)]
 fn c14_timestamp_overflow() -> (bool, String) {
     let r = std::panic::catch_unwind(|| {
         let mut n = node(10, |_, _| true);
@@ -144,7 +145,7 @@ fn c14_interleaving_search() -> (bool, String) {
 pub fn witnesses() -> Vec<crate::W> {
     vec![
         ("c14_flag_collision_duplicate", c14_flag_collision_duplicate as fn() -> (bool, String)),
-        ("c14_timestamp_overflow", c14_timestamp_overflow),
+        // c14_timestamp_overflow (ts >= 2^63 overflows the i64 subtraction in debug builds) is outside the quantifier (small timestamp domain): kept as a function, not run
         ("c14_interleaving_search", c14_interleaving_search),
     ]
 }
